@@ -13,7 +13,15 @@ from .. import fmts
 C18_FORMATS = [('h5', 3), ('xtc', 4), ('trr', 4), ('dcd', 3), ('nc', 3), ('mdcrd', 2), ('xyz', 2),
                ('lammpstrj', 2), ('dtr', 2)]
 C02_FORMATS = [('h5', 4), ('xtc', 4), ('trr', 3), ('dcd', 3), ('nc', 3), ('mdcrd', 2), ('xyz', 2),
-               ('lammpstrj', 2), ('gro', 1), ('pdb', 1), ('dtr', 1)]
+               ('lammpstrj', 2), ('gro', 1), ('pdb', 1), ('dtr', 1), ('rst7', 1), ('ncrst', 1)]
+RESTART = ('rst7', 'ncrst')
+LONG_OK = ('h5', 'nc', 'dcd', 'xtc', 'trr', 'xyz', 'mdcrd')      # formats in which a file of thousands of frames is generated
+
+
+def _clamp_long(f):
+    """a file whose format or atom count was overridden after generation keeps a long frame count only where that is cheap"""
+    if f['n_frames'] > 1000 and (f['fmt'] not in LONG_OK or f['n_atoms'] > 3):
+        f['n_frames'] = f['n_frames'] % 30 + 1
 ATOMS = [1, 2, 3, 8, 9, 10, 11, 20, 22, 30, 50, 50, 130, 257]      # incl. sizes beyond one text line / one compression block
 XTOL = 5e-4
 
@@ -33,7 +41,7 @@ def _gen_file(rng, formats, tier, max_frames=None):
     if max_frames:
         n = min(n, max_frames)
     n_atoms = rng.choice(ATOMS)
-    if fmt in ('h5', 'nc', 'dcd', 'xtc', 'trr', 'xyz', 'mdcrd') and rng.chance(0.012):
+    if fmt in LONG_OK and rng.chance(0.012):
         # a long file of a tiny system: thousands of frames, beyond any internal block, cache or index granularity
         n = rng.randint(4100, 6000)
         n_atoms = rng.choice([2, 3])
@@ -82,7 +90,11 @@ def _gen_file(rng, formats, tier, max_frames=None):
         knobs['stk'] = {'cut': cut, 'overlap': rng.randint(0, min(3, n - cut))}
     # extension aliases registered for the same reader, gz variants, and where the molecule sits (negative and large coordinates)
     alias = {'nc': ['.nc', '.nc', '.netcdf', '.ncdf'], 'mdcrd': ['.mdcrd', '.crd'], 'h5': ['.h5', '.h5', '.hdf5'],
-             'xyz': ['.xyz', '.xyz', '.xyz.gz'], 'pdb': ['.pdb', '.pdb.gz']}
+             'xyz': ['.xyz', '.xyz', '.xyz.gz'], 'pdb': ['.pdb', '.pdb.gz'], 'rst7': ['.rst7', '.rst7', '.restrt', '.inpcrd']}
+    if fmt in RESTART:
+        n = 1                                   # one frame per file by format
+        if fmt == 'rst7':
+            n_atoms = max(3, n_atoms)           # one or two atoms: the 4th line of the ASCII format is ambiguous (amberrst.py)
     if fmt in alias:
         knobs['ext'] = rng.choice(alias[fmt])
     if rng.chance(0.4):
@@ -148,6 +160,7 @@ def generate(check, rng, tier, run_index):
                 files[1]['n_atoms'] = max(2, files[1]['n_atoms'])
             files[1]['cell'] = fmts.cell_for(files[1]['fmt'], files[1]['cell'])
             files[1]['knobs'] = dict(files[0]['knobs'])
+            _clamp_long(files[1])
         nh = rng.weighted([(1, 3), (2, 5), (3, 2)])
         handles = [{'file': rng.below(nfiles)} for _ in range(nh)]
         if nh >= 2 and rng.chance(0.7):
@@ -167,12 +180,15 @@ def generate(check, rng, tier, run_index):
     for f in files[1:]:
         # list loads need one format and one atom count
         f['fmt'] = files[0]['fmt']
+        if f['fmt'] in RESTART:
+            f['n_frames'] = 1
         f['n_atoms'] = files[0]['n_atoms']
         f['cell'] = files[0]['cell']
         f['knobs'] = dict(files[0]['knobs'])
         if f['fmt'] == 'lammpstrj':
             f['knobs']['layout'] = rng.choice(['std', 'mol_first', 'reordered', 'wrapped_names', 'scaled_too'])     # files of one format may differ in column layout
             f['knobs']['line_order'] = rng.choice(['sorted', 'shuffled'])
+        _clamp_long(f)
     subsets = _gen_subsets(rng)
     handles = [{'file': rng.below(nfiles)} for _ in range(2)]
     ops = []
@@ -181,8 +197,12 @@ def generate(check, rng, tier, run_index):
     nops = rng.randint(3, 14) if single else rng.randint(8, 40)
     live = []
     for _ in range(nops):
-        kinds = [('iter_new', 10 if ngen < 6 else 0), ('iter_next', 30 if live else 0), ('iter_drain', 6 if live else 0),
-                 ('load', 8), ('load_frame', 6), ('load_list', 5), ('load_list_bad', 2), ('raw', 0 if single else 8)]
+        rst = files[0]['fmt'] in RESTART
+        # (restart files: load_restrt / load_ncrestrt take neither stride nor frame and have no chunked reader -- md.load refuses
+        # those keywords with a TypeError, md.iterload and md.load_frame likewise; what they do offer is judged: atom subsets, lists)
+        kinds = [('iter_new', 10 if (ngen < 6 and not rst) else 0), ('iter_next', 30 if live else 0), ('iter_drain', 6 if live else 0),
+                 ('load', 8), ('load_frame', 0 if rst else 6), ('load_list', 5), ('load_list_bad', 2),
+                 ('raw', 0 if (single or rst) else 8)]
         k = rng.weighted(kinds)
         if k == 'iter_new':
             f = rng.below(nfiles)
@@ -231,6 +251,8 @@ def generate(check, rng, tier, run_index):
             o['raw'] = True
         if k in ('iter_new', 'load', 'load_frame', 'load_list') and rng.chance(0.2):
             o['pathobj'] = True                         # the file is named by a pathlib.Path object
+        if rst and 'stride' in o:
+            o['stride'] = None
         ops.append(o)
     if files[0]['fmt'] == 'trr':
         # AVOIDED (known finding C02/trr/heap-overflow): TRR reads with stride > 1 and an atom subset write
@@ -280,6 +302,10 @@ class World(object):
                 path = os.path.join(workdir, 'f%d.stk' % k)
                 with open(path, 'w') as fh:
                     fh.write(pa + '\n' + pb + '\n')
+            elif fs['fmt'] == 'rst7' and not path.endswith('.rst7'):
+                tmp = os.path.join(workdir, 'f%d_tmp.rst7' % k)      # Trajectory.save knows .rst7 only; the loaders also .restrt and .inpcrd
+                t.save(tmp)
+                os.rename(tmp, path)
             else:
                 t.save(path, **kw)
             if fs['fmt'] == 'lammpstrj' and (fs['knobs'].get('layout', 'std') != 'std' or fs['knobs'].get('line_order') == 'shuffled'):
